@@ -71,6 +71,10 @@ class C16(Prop):
         keys = [b"k1", "s2", b"n3", "m4"]
         if uni:
             keys.append("ключ")
+        if rng.random() < 0.3:
+            # legal keys that are not text at all: a raw digest, a Latin-1 byte
+            keys[rng.randrange(len(keys))] = rng.choice([bytes.fromhex("9f86d081884c7d659a2feaa0c55ad015"),
+                                                         b"caf\xe9", b"\xff\xfe\x80id"])
         enc = ck.get("encoding", "ascii")
         prefix = codec.dec(ck.get("key_prefix", E(b"")))
         if isinstance(prefix, str):
